@@ -130,3 +130,49 @@ func JSONForm(v interface{}) interface{} {
 	}
 	return out
 }
+
+// AnonDoc: documents made of anonymous struct types and of function-local
+// types that share one name ("T"), with one field name at different
+// positions (or absent) in each: anything that identifies a struct type by
+// its printed name instead of its reflect.Type confuses them.
+func AnonDoc(r *gen.Rand) map[string]interface{} {
+	v := func() float64 { return float64(r.Intn(5)) }
+	x := struct {
+		Name string
+		Next struct {
+			ID   float64
+			Name string
+		}
+	}{Name: "x-name"}
+	x.Next.ID, x.Next.Name = v(), "x-next-name"
+	y := struct {
+		ID    float64
+		Extra string
+		Name  string
+	}{ID: v(), Extra: "y-extra", Name: "y-name"}
+	l := []struct {
+		Tag  string
+		Name string
+	}{{"t0", "l0-name"}, {"t1", "l1-name"}}
+	return map[string]interface{}{"X": x, "Y": y, "L": l, "L1": localT1(v()), "L2": localT2(v()), "PX": &x}
+}
+
+func localT1(v float64) interface{} {
+	type T struct {
+		Name string
+		V    float64
+	}
+	return T{Name: "local1-name", V: v}
+}
+
+func localT2(v float64) interface{} {
+	type T struct {
+		V     float64
+		Other string
+		Name  string
+	}
+	return T{V: v + 10, Other: "o", Name: "local2-name"}
+}
+
+// AnonPaths are the field paths of AnonDoc.
+var AnonPaths = []string{"X.Name", "X.Next.Name", "X.Next.ID", "Y.Name", "Y.ID", "Y.Extra", "L[0].Name", "L[*].Tag", "L[*].Name", "L1.Name", "L2.Name", "L1.V", "L2.V", "L2.Other", "PX.Next.Name", "PX.Name"}
